@@ -302,9 +302,27 @@ func evalIt(ic itCase) *Failure {
 			return fail("constructor-panics", msg)
 		}
 		valueMismatch := ""
+		step := 0
 		got, cl, what = drive(it.Next, func() string {
-			f := append([]int{}, it.FreqValue()...)
+			step++
 			v := it.Value()
+			if ic.PredF == "freq-every-2nd" || ic.PredF == "freq-every-3rd" {
+				// a caller that looks at Value() every step but asks for FreqValue() only now and then
+				every := 2
+				if ic.PredF == "freq-every-3rd" {
+					every = 3
+				}
+				if step%every != 0 {
+					fr := make([]int, len(m))
+					for _, x := range v {
+						if x >= 0 && x < len(fr) {
+							fr[x]++
+						}
+					}
+					return is(fr)
+				}
+			}
+			f := append([]int{}, it.FreqValue()...)
 			var exp []int
 			for i, c := range f {
 				for j := 0; j < c; j++ {
@@ -888,6 +906,21 @@ func runC15(c *Ctx) {
 	}
 	for _, k := range []int{31, 32, 33, 62, 63, 64, 65, 96, 128} {
 		add(itCase{It: "RestrictedPrefixProduct", P: repeatInt(2, k), PredF: "few-ones"})
+	}
+	// multisets with one long run and a few other elements (the successor step works on a decreasing tail of 17+
+	// entries with three or more distinct values): every arrangement, in order
+	for _, f := range [][]int{{1, 2, 15}, {15, 2, 1}, {1, 1, 1, 15}, {0, 1, 2, 0, 15}, {2, 1, 16}, {1, 17, 1}, {1, 1, 20}, {20, 1, 1}, {2, 2, 14}, {1, 2, 3, 12}, {1, 30, 1}, {3, 17}, {17, 3}} {
+		add(itCase{It: "MultisetPermutations", P: f})
+	}
+	for _, v := range [][]int{{1, 1, 1}, {2, 1, 2}, {1, 2, 3}, {3, 3}, {2, 2, 2, 2}, {1, 0, 2, 1}, {4, 1, 1, 2}, {3, 2, 1, 1, 2}} {
+		tot := 0
+		for _, x := range v {
+			tot += x
+		}
+		for k := 0; k <= tot; k++ {
+			add(itCase{It: "MultisetCombinations", P: append(append([]int{}, v...), k), PredF: "freq-every-2nd"})
+			add(itCase{It: "MultisetCombinations", P: append(append([]int{}, v...), k), PredF: "freq-every-3rd"})
+		}
 	}
 	add(itCase{It: "RestrictedPrefixProduct", P: []int{1 << 16, 1 << 16, 1 << 16, 1 << 16}, PredF: "small-values"})
 	add(itCase{It: "RestrictedPrefixProduct", P: []int{1 << 16, 3, 1 << 16, 1 << 16, 1 << 16}, PredF: "small-values"})
